@@ -253,6 +253,13 @@ def h_probe(ctx: Any, code: str, n: int, script: str, mode: str = 'C', stacks: A
         ctx.fail('verifier-raised-wrong-exception', f'verify_{VERIFY[opname]}{args}: {type(e).__name__}: {e}')
     ctx.check(ver == can, 'verifier-disagrees-with-query', lambda: f'{opname}{args} can={can} verify={ver}')
     ctx.check(same(before, snapshot(st)), 'verifier-changed-state', opname)
+    # an explicit player index is accepted only for a player the phase is waiting for
+    key0 = PENDING_OF.get(opname)
+    if key0 is not None and st.status:
+        pi0 = args[0] if opname in ('post_ante', 'post_blind_or_straddle', 'kill_hand', 'pull_chips') else args[1]
+        if pi0 is not None and not (opname == 'show_or_muck_hole_cards' and pend_before['street'] is None):
+            if pi0 not in pend_before[key0]:
+                ctx.check(not can, 'operation-accepted-for-a-player-not-pending', lambda: f'{opname}{args}: pending {pend_before[key0]}')
     # operation
     try:
         rec = getattr(st, opname)(*args)
